@@ -100,6 +100,10 @@ func generalPlan(tier string, faults bool) []PlanItem {
 		items = append(items, PlanItem{scnStop("stop/"+stopName(sv)+"-K1", K1, sv, "A", "B"), d})
 		items = append(items, PlanItem{scnRestart("restart/"+stopName(sv)+"-K1", K1, sv), d})
 	}
+	items = append(items,
+		PlanItem{scnRestart2("restart2/stop-then-stopdel-K1", K1, Item{Do: "stop"}), d},
+		PlanItem{scnRestart2("restart2/stopctx-then-stopdel-K1", K1, Item{Do: "stopctx"}), d},
+		PlanItem{dropAll(scnRestart2("restart2/stop-then-stopdel-K1-dropall", K1, Item{Do: "stop"})), d})
 	if faults {
 		items = append(items,
 			PlanItem{scnFailoverCrash("failover-crash2-K1", K1, "A", "B"), d},
